@@ -128,10 +128,20 @@ def run_job(job):
     if job.loop_contracts: cmd_i += ['--apply-loop-contracts']
     cmd_i += [cur, base + '.b.gb']
     rc, out_i, _ = sh(cmd_i, 300)
+    # contracts of functions this unit never calls are not in the binary: drop them from the replace list
+    while rc != 0:
+        m = re.search(r"Function to replace '(\w+)' not found", out_i)
+        if not m or m.group(1) not in job.replace: break
+        k = cmd_i.index(m.group(1)); del cmd_i[k - 1:k + 1]
+        job.replace = [r for r in job.replace if r != m.group(1)]
+        rc, out_i, _ = sh(cmd_i, 300)
     if rc != 0:
         return {'status': 'undecided', 'reason': 'goto-instrument failed', 'log': out_i, 'results': [], 'wall': time.time() - t0, 'cmd': ' '.join(cmd_i)}
     cmd_c = ['cbmc'] + CBMC_CHECKS + job.cbmc_flags + [base + '.b.gb']
-    rc, out, wall = sh(cmd_c, job.timeout)
+    if getattr(job, 'spec', None) and job.spec.get('split'):
+        rc, out, wall = run_split(job, cmd_c)
+    else:
+        rc, out, wall = sh(cmd_c, job.timeout)
     res = parse_results(out)
     st = 'ok'
     reason = ''
@@ -147,6 +157,43 @@ def run_job(job):
         st, reason = 'undecided', 'quantifier ignored by back end'
     return {'status': st, 'reason': reason, 'results': res, 'log': out, 'wall': wall,
             'cmd': ' '.join(shlex.quote(c) for c in cmd_i) + ' && ' + ' '.join(shlex.quote(c) for c in cmd_c), 'binary': base + '.b.gb'}
+
+def run_split(job, cmd_c):
+    """all-properties mode can be far slower than the sum of its parts: check every contract obligation of the
+    enforced function in its own cbmc process and the remaining (built-in safety) properties in one more"""
+    from concurrent.futures import ThreadPoolExecutor
+    t0 = time.time()
+    rc, out, _ = sh(cmd_c[:-1] + ['--show-properties', '--json-ui', cmd_c[-1]], 300)
+    try:
+        js = json.loads(out)
+    except Exception:
+        return 1, out, time.time() - t0
+    names = []
+    for item in js:
+        if isinstance(item, dict) and 'properties' in item:
+            names = [p['name'] for p in item['properties']]
+    fn = (job.enforce or [job.entry])[0]
+    single = [n for n in names if re.match(r'^%s\.(postcondition|assertion)\.\d+$' % re.escape(fn), n)]
+    rest = [n for n in names if n not in single]
+    groups = [[n] for n in single]
+    # the remaining properties in chunks
+    CH = 400
+    groups += [rest[i:i + CH] for i in range(0, len(rest), CH)]
+    def one(g):
+        args = []
+        for n in g: args += ['--property', n]
+        return sh(cmd_c[:-1] + args + [cmd_c[-1]], job.timeout)
+    with ThreadPoolExecutor(max_workers=job.spec.get('split_workers', 6)) as ex:
+        outs = list(ex.map(one, groups))
+    rcs = [o[0] for o in outs]
+    text = '\n'.join(o[1] for o in outs)
+    if any(r == -9 for r in rcs):
+        return -9, text, time.time() - t0
+    verdict = 'VERIFICATION FAILED' if any('VERIFICATION FAILED' in o[1] for o in outs) else \
+              ('VERIFICATION SUCCESSFUL' if all('VERIFICATION SUCCESSFUL' in o[1] for o in outs) else 'NO VERDICT')
+    # strip per-run verdict lines, append the combined one
+    text = re.sub(r'VERIFICATION (FAILED|SUCCESSFUL)', '', text) + '\n' + verdict + '\n'
+    return max(rcs), text, time.time() - t0
 
 def trace_for(job, prop, timeout=300):
     """counterexample for one failed property as {lhs: value} of harness-level assignments"""
